@@ -48,6 +48,9 @@ func New() *FS {
 
 var cur *FS
 
+// OnOp, if set, is called for every file-system access made through the seam.
+var OnOp func(op, name string)
+
 // Install makes f the file system seen by instrumented code (nil: real os).
 func Install(f *FS) { cur = f }
 
@@ -109,6 +112,9 @@ func Stat(name string) (os.FileInfo, error) {
 	}
 	simrt.Yield("fs.stat")
 	f.Ops++
+	if OnOp != nil {
+		OnOp("stat", name)
+	}
 	n := f.lookup(name)
 	if n == nil {
 		simrt.Log("fs.stat", name+" ENOENT")
@@ -134,6 +140,9 @@ func ReadFile(name string) ([]byte, error) {
 	}
 	simrt.Yield("fs.read")
 	f.Ops++
+	if OnOp != nil {
+		OnOp("read", name)
+	}
 	n := f.lookup(name)
 	if n == nil {
 		simrt.Log("fs.read", name+" ENOENT")
